@@ -31,7 +31,7 @@ def run(ctx):
     st = state["stats"]
     if cases:
         for k in ("op_set", "op_del_announced", "op_cfg", "op_node", "oracle_nonempty_route_sets", "services_with_peers",
-                  "sessions_closed_by_node", "sessions_closed_by_cfg", "final_prefix_shared_by_services"):
+                  "sessions_closed_by_node", "sessions_closed_by_cfg", "final_prefix_shared_by_services", "unchanged_peer_kept_checks"):
             if st.get(k, 0) == 0:
                 raise Exception("generator degenerate: counter %r is zero: %r" % (k, st))
 
